@@ -314,6 +314,7 @@ type Opts struct {
 	TagOptions bool // json tag options omitempty / string (C02 only: the generated types cannot express them)
 	NoNamedRec bool // no `type Tree []Tree` (the SQL JSON validators refuse recursive named containers)
 	DataIgnore bool // some fields tagged gomacro-data:"ignore"
+	OmitEmpty     bool // a struct whose map / slice fields are tagged omitempty: Go leaves the key out when they are empty (C04 only)
 	OddEnumValues bool // a string enum whose values need escaping (backslash, double and single quote, empty)
 }
 
@@ -408,7 +409,9 @@ func Random(id int, rng *rand.Rand, o Opts) *Prog {
 		// exported constants 0..2 (iota-like) plus an unexported sentinel far away: still a member
 		ph := Basic("int")
 		add(Decl{K: "named", Name: "Phase", Under: &ph, Iota: true, Consts: []Const{{Name: "P0"}, {Name: "P1"}, {Name: "P2"}}, Extra: "const phaseUnset Phase = 100"})
-		add(Decl{K: "struct", Name: "EnumsHolder", Fields: []Field{{Name: "P", Type: Ref("", "Phase")}, {Name: "Ps", Type: Slice(Ref("", "Phase"))}, {Name: "ByName", Type: Map(Basic("string"), Ref("", "Phase"))}}})
+		// an unexported alias of a non-maximal value: in member order it stands BEFORE exported members
+		add(Decl{K: "named", Name: "Tier", Under: &ph, Iota: true, Consts: []Const{{Name: "TierA"}, {Name: "TierB"}, {Name: "TierC"}}, Extra: "const tierDefault = TierA"})
+		add(Decl{K: "struct", Name: "EnumsHolder", Fields: []Field{{Name: "P", Type: Ref("", "Phase")}, {Name: "Ps", Type: Slice(Ref("", "Phase"))}, {Name: "ByName", Type: Map(Basic("string"), Ref("", "Phase"))}, {Name: "T", Type: Ref("", "Tier")}}})
 		g.leafs = append(g.leafs, Ref("", "Phase"))
 	}
 	// dates
@@ -445,7 +448,14 @@ func Random(id int, rng *rand.Rand, o Opts) *Prog {
 	if o.Unions {
 		add(Decl{K: "iface", Name: "Shape", IMethods: []string{"isShape"}})
 		add(Decl{K: "struct", Name: "Circle", Fields: []Field{{Name: "R", Type: Basic("float64")}}, Methods: []Method{{Name: "isShape"}}})
-		add(Decl{K: "struct", Name: "Rect", Fields: []Field{{Name: "W", Type: Basic("int")}, {Name: "H", Type: Basic("int"), Tag: `json:"h"`}}, Methods: []Method{{Name: "isShape"}, {Name: "isThing"}}})
+		rectMethods := []Method{{Name: "isShape"}, {Name: "isThing"}}
+		if o.CaseTwins {
+			// a third union, declared in ANOTHER file of the package: the unions a struct implements come from two files
+			add(Decl{K: "iface", Name: "Figure", File: "other", IMethods: []string{"isFigure"}})
+			add(Decl{K: "struct", Name: "UsesFigure", Fields: []Field{{Name: "F", Type: Ref("", "Figure")}}}) // (reached from the analysed file)
+			rectMethods = append(rectMethods, Method{Name: "isFigure"})
+		}
+		add(Decl{K: "struct", Name: "Rect", Fields: []Field{{Name: "W", Type: Basic("int")}, {Name: "H", Type: Basic("int"), Tag: `json:"h"`}}, Methods: rectMethods})
 		nb := Basic("int")
 		add(Decl{K: "named", Name: "Dot", Under: &nb, Methods: []Method{{Name: "isShape"}}})
 		if o.UnexportedMembers {
@@ -491,9 +501,16 @@ func Random(id int, rng *rand.Rand, o Opts) *Prog {
 			add(Decl{K: "struct", Name: "MemberFirst", Fields: []Field{{Name: "First", Type: Ref("", "Circle")}, {Name: "Both", Type: Ref("", "Rect")}, {Name: "Then", Type: Ref("", "Shape")}, {Name: "Last", Type: Ref("", "Thing")}}})
 		}
 	}
+	if o.OmitEmpty {
+		add(Decl{K: "struct", Name: "OmitHolder", Fields: []Field{{Name: "Name", Type: Basic("string"), Tag: `json:"name"`},
+			{Name: "Labels", Type: Map(Basic("string"), Basic("int")), Tag: `json:"labels,omitempty"`}, {Name: "Notes", Type: Slice(Basic("string")), Tag: `json:"notes,omitempty"`},
+			{Name: "Count", Type: Basic("int"), Tag: `json:",omitempty"`}}})
+	}
 	if o.DashTags {
 		// `json:"-,"` names the key "-" (only the exact tag "-" hides a field)
-		add(Decl{K: "struct", Name: "DashKey", Fields: []Field{{Name: "Lo", Type: Basic("int"), Tag: `json:"-,"`}, {Name: "Hidden", Type: Basic("string"), Tag: `json:"-"`}, {Name: "Hi", Type: Basic("int")}}})
+		add(Decl{K: "struct", Name: "DashKey", Fields: []Field{{Name: "Lo", Type: Basic("int"), Tag: `json:"-,"`}, {Name: "Hidden", Type: Basic("string"), Tag: `json:"-"`}, {Name: "Hi", Type: Basic("int")},
+			// keys that are not identifiers: a leading digit (not a number either), the spelling of a number
+			{Name: "First", Type: Basic("string"), Tag: `json:"1st"`}, {Name: "Exp", Type: Basic("int"), Tag: `json:"1e3"`}}})
 	}
 	if o.Embedded {
 		// embedded NON-struct types are ordinary fields named after their type
@@ -646,7 +663,12 @@ func Random(id int, rng *rand.Rand, o Opts) *Prog {
 		add(Decl{K: "alias", Name: "LabelA", Under: &lb})
 		la := Ref("", "LabelA")
 		add(Decl{K: "alias", Name: "LabelB", Under: &la})
-		add(Decl{K: "struct", Name: "UsesAlias", Fields: []Field{{Name: "A", Type: Ref("", "AliasAlpha")}, {Name: "B", Type: Basic("int")},
+		// a named basic type reached ONLY through its alias (containers and structs register themselves early)
+		hs := Basic("string")
+		add(Decl{K: "named", Name: "OnlyAliased", File: "other", Under: &hs}) // (declared in the other file: not a root itself)
+		oa := Ref("", "OnlyAliased")
+		add(Decl{K: "alias", Name: "ViaAlias", Under: &oa})
+		add(Decl{K: "struct", Name: "UsesAlias", Fields: []Field{{Name: "A", Type: Ref("", "AliasAlpha")}, {Name: "B", Type: Basic("int")}, {Name: "V", Type: Ref("", "ViaAlias")},
 			{Name: "C", Type: Ref("", "AliasAlpha2")}, {Name: "D", Type: Ref("", "LabelB")}, {Name: "E", Type: Slice(Ref("", "LabelB"))}}})
 	}
 	if o.Recursive && !o.NoNamedRec {
